@@ -22,7 +22,7 @@ CONFIG = {
                 spec=['C03/'], n=(210, 4000)),
     'C04': dict(profiles=['rescons', 'rescons', 'late', 'mixed'], fwd_tags=['cons'], bwd=False, o1=False,
                 spec=['C04/'], n=(240, 4000)),
-    'C06': dict(profiles=['optional', 'optional', 'mixed'], fwd_tags=['task', 'cons', 'horizon', 'overlap'], bwd=False, o1=False,
+    'C06': dict(profiles=['optional', 'optional', 'mixed'], fwd_tags=['task', 'cons', 'horizon', 'overlap'], bwd=True, o1=False,
                 spec=['C06/', 'C01/', 'C02/'], n=(180, 3000)),
     'C10': dict(profiles=['fol', 'fol', 'mixed'], fwd_tags=['cons'], bwd=True, o1=False,
                 spec=['C10/'], n=(210, 4000)),
@@ -172,6 +172,7 @@ def run(ctx, replay=None):
         if r['o1'] != 'agree' or r['model_run'][0] != 'ok':
             continue
         stats['compared'] += 1
+        stats['impl_feasible'] += 1 if r.get('impl_feasible') else 0
         stats['syntactic'] += 1 if r['syntactic'] else 0
         stats['unknown'] += r['unknown']
         stats['spec_checked'] += r.get('n_spec', 0)
@@ -207,6 +208,32 @@ def run(ctx, replay=None):
                 'what': 'the constraint system built by /repo admits this valuation, and the Spec clause evaluates to false on it (confirmed by vm_compute)'})
             common.violation(ctx, path)
         new_viol += 1
+    # a broken correspondence: search the implementation for a concrete failing input on reduced programs
+    if tie_breaks and new_viol == 0 and cfg['spec']:
+        red = []
+        for (i, direction, info) in tie_breaks[:12]:
+            if direction == 'impl=>model':
+                red.append(reduce_program(progs[i], info.get('tag', '')))
+        red = [p for k, p in enumerate(red) if p is not None and p not in red[:k]]
+        if red:
+            rreports = modelrun.run_extracted(red, ctx.work, shard=700)
+            rres = tie.run_tie(red, rreports, {'spec_prefixes': cfg['spec'], 'sweep': True}, procs=min(8, len(red)))
+            rc = []
+            for r in rres:
+                for sb in r.get('spec_bad', []):
+                    rc.append((red[r['idx']], sb['key'], sb['witness']))
+            conf = confirm_in_coq(ctx, rc[:20])
+            for (p, key, wit), cf in zip(rc[:20], conf):
+                if cf is None or cf[0] or clause_kind(key) in open_kinds:
+                    continue
+                if new_viol < 3:
+                    path = common.write_replay(ctx, 'spec', {
+                        'kind': 'spec-violation', 'property': ctx.prop, 'clause': key, 'program': terms.dump(p),
+                        'program_pretty': pretty(p), 'schedule': wit, 'model_also_admits': cf[1], 'found_by': 'reduced program after a correspondence break',
+                        'what': 'the constraint system built by /repo admits this valuation, and the Spec clause evaluates to false on it (confirmed by vm_compute)'})
+                    common.violation(ctx, path)
+                new_viol += 1
+            stats['reduced_programs_searched'] = len(red)
     # tie breaks not explained by a concrete violation
     if tie_breaks and new_viol == 0:
         i, direction, info = tie_breaks[0]
@@ -249,6 +276,43 @@ def run(ctx, replay=None):
     common.write_evidence(ctx, 'proof', cov, [
         'the theorem is about the Coq model; the model is tied to /repo only on the sampled programs (per program the comparison is exact, by z3)',
         'z3 unknown answers on refinement queries: %d (never counted as agreement)' % stats['unknown']])
+
+
+def _cons_deps(e):
+    out = set()
+
+    def go(x):
+        if isinstance(x, tuple):
+            if x and x[0] == 'OpC':
+                out.add(terms.nval(x[1]))
+            for y in x[1:]:
+                go(y)
+        elif isinstance(x, list):
+            for y in x:
+                go(y)
+    go(e)
+    if e[0] == 'CForceApplyN':
+        for c in e[1]:
+            out.add(terms.nval(c))
+    return out
+
+
+def reduce_program(prog, tag):
+    """keep every non-constraint op, and only the constraint named by the tag (with the constraints it refers to)"""
+    kind, _, eid = tag.partition(':')
+    keep = set()
+    if kind == 'cons' and eid.isdigit():
+        deps = {terms.nval(o[1]): _cons_deps(o[3]) for o in prog if o[0] == 'ONewConstraint'}
+        todo = [int(eid)]
+        while todo:
+            c = todo.pop()
+            if c in keep:
+                continue
+            keep.add(c)
+            todo += list(deps.get(c, ()))
+    elif kind not in ('task', 'overlap', 'work', 'horizon', 'problem'):
+        return None
+    return [o for o in prog if o[0] != 'ONewConstraint' or terms.nval(o[1]) in keep]
 
 
 def kernel_parallel(progs, work):
